@@ -12,6 +12,14 @@ SYMX_NOTE = ("Trusted: rustc; the symbolic Uint128 shim (every run re-executes e
 CLAIMED = {
     "C01": ("model_checking", "symbolic execution of the real vAMM contract through a symbolic Uint128 + SMT (z3) proof of k-monotonicity, base+net=initial and failed-swap-unchanged for ALL reserve pairs/amounts/limits; 1-3 step sequences",
             "DESIGN.md §4 C01"),
+    "C02": ("model_checking", "engine histories (open / increase / reduce / reverse / close / full and partial liquidation / funding / deposit / withdraw, long and short, cw20 and native, with fees) executed symbolically through engine -> vAMM -> reply; after EVERY transaction (successful or failed) z3 proves sum of signed position sizes == vAMM net position for all symbolic amounts on the path",
+            "DESIGN.md §4 C02"),
+    "C03": ("model_checking", "same histories; per transaction z3 proves total collateral over all accounts unchanged, only sender/engine/insurance fund/fee pool balances move, a liquidated trader receives nothing, failed transactions move nothing",
+            "DESIGN.md §4 C03"),
+    "C08": ("model_checking", "same histories incl. naturally failing sub-messages (allowance/balance/limit/closed): after every transaction no tmp-swap / sent-funds / tmp-liquidator key remains; a failed transaction leaves raw storage of all contracts and all balances (semantically) identical",
+            "DESIGN.md §4 C08"),
+    "C10": ("model_checking", "same histories with 5 position holders: per transaction every other trader's whole Position record is proved equal term-for-term before and after (Liquidate: except the named trader)",
+            "DESIGN.md §4 C10"),
     "C19": ("model_checking", "two engines: (1) Kani/CBMC bit-precise harnesses over ALL 2^129 operand representations (incl. -0) for add/sub/neg/abs/constructors/cmp/eq/sign predicates and checked-vs-unchecked agreement, loop-free so complete for the input space (thorough adds full-width checked_mul); (2) symx/z3 for full-width mul, truncating div, add/sub, ordering and the Display/FromStr/serde round trip with symbolic 128-bit magnitudes",
             "DESIGN.md §3, §4 C19"),
 }
